@@ -203,8 +203,8 @@ fn gen_impl_delegation_trait_defs(
                 #(#impl_sub_attributes)*
                 #trait_def
 
-                #delegation_vis trait #delegation_ident<T> {
-                    type Target: #impl_trait_ident<T>;
+                #delegation_vis trait #delegation_ident<EntraitT> {
+                    type Target: #impl_trait_ident<EntraitT>;
                 }
             }))
         }
